@@ -47,3 +47,4 @@ def run(ctx):
         ctx.fail("trace-rejected:Trace_XlsxStrings", {"kind": "trace", "trace": trace, "info": v["info"],
                                                       "tlc_output": v["out"]})
     ctx.families_leg("text")
+    ctx.bigsst_leg("xlsx,xlsb,xls")
